@@ -48,6 +48,19 @@ class BuildLock:
         self.f.close()
 
 
+class LeanLock:
+    """The Lean project is shared by every check whatever its build directory (seed lanes use private build directories
+    but one .lake): two `lake build`s at once can lose each other's .olean files."""
+    def __enter__(self):
+        self.f = open(os.path.join(LEAN, ".verif-lock"), "w")
+        fcntl.flock(self.f, fcntl.LOCK_EX)
+        return self
+
+    def __exit__(self, *a):
+        fcntl.flock(self.f, fcntl.LOCK_UN)
+        self.f.close()
+
+
 def build_rust():
     """Rebuild the harness and the instrumented redo from the repository's current working tree."""
     with BuildLock():
@@ -100,7 +113,7 @@ FORBIDDEN = re.compile(r"\bsorry\b|\badmit\b|^axiom |native_decide|bv_decide|imp
 
 def lean_check(prop, thorough=False):
     """Build Props.<prop> + driver, audit axioms.  Returns dict(theorems=[...], ok, msg)."""
-    with BuildLock():
+    with BuildLock(), LeanLock():
         gen = sh([sys.executable, os.path.join(VERIF, "tools", "extract_consts.py")],
                  stdout=subprocess.PIPE, stderr=subprocess.STDOUT, text=True)
         if gen.returncode != 0:
